@@ -476,6 +476,33 @@ def run(prog, tier):
                 continue
             byname.append(f)
             check_by_name(prog, res, f, cls_pos, cls_idx, set(vecs))
+    # ---- a name index kept next to the elements (map name -> position) must see every way a name can change -----
+    E_ = None
+    for q, c in sorted(prog.classes.items()):
+        if not q.startswith('ezc3d::'):
+            continue
+        vecs_ = {fl['name']: vec_elem(fl['type']) for fl in c['fields'] if vec_elem(fl['type'])}
+        maps_ = [fl for fl in c['fields'] if re.match(r'^(?:const )?std::(?:unordered_)?map<std::(?:basic_string<char>|string)', fl['type'])]
+        if not vecs_ or not maps_:
+            continue
+        import effects as _FX
+        E_ = E_ or _FX.get(prog)
+        for mp in maps_:
+            for m in c['methods']:
+                if m['implicit'] or m['kind'] != 'method' or not m['ret'].endswith('&') or m['ret'].startswith('const '):
+                    continue
+                if strip_cref(m['ret']) not in vecs_.values():
+                    continue
+                g_ = prog.funcs.get(m['usr'])
+                if g_ is None or g_.body is None:
+                    continue
+                touched = [e for e in E_.events_of(g_, 'this') if e[2] and e[2][0] == mp['name']]
+                inst = '%s::%s vs the name index %s' % (q.split('::')[-1], m['name'], mp['name'])
+                if touched:
+                    res.ok('name-index', inst, g_.loc(), 'the accessor that hands out a mutable element resets the index', function=g_.sig, expr='index:' + m['name'], nontrivial=False)
+                else:
+                    res.viol('name-index', inst, g_.loc(), '%s hands out a mutable element (its name can be changed through name()) without touching the name index `%s`: a look-up by name then answers from stale '
+                             'positions - the renamed element is not found under its new name and still found under the old one' % (m['name'], mp['name']), function=g_.sig, expr='index:' + m['name'])
     # ---- reported size = size of the container the positional accessors index -----------------
     nsz = 0
     pos_conts = {}
